@@ -37,7 +37,15 @@ try:
 except Exception:
     pass
 
+import resource  # noqa: E402
+
 CPU_LIMIT = float(os.environ.get("C03_CPU_LIMIT", "10"))
+# a call that builds an unbounded structure must end in MemoryError inside this worker, not in the OOM killer
+MEM_LIMIT = int(float(os.environ.get("C03_MEM_LIMIT_GB", "4")) * (1 << 30))
+try:
+    resource.setrlimit(resource.RLIMIT_AS, (MEM_LIMIT, MEM_LIMIT))
+except (ValueError, OSError):
+    pass
 WALL_LIMIT = float(os.environ.get("C03_WALL_LIMIT", "60"))
 
 
